@@ -5,7 +5,7 @@ run 1 C01 C02 C03 C04 C05 C06 C07 C08 C09 C10 &
 run 2 C11 C12 C13 C14 C15 C16 C17 C18 C19 C20 &
 run 3 W X &
 run 4 Y Z A &
-run 5 R S T U V run 5 R S T U &
+run 5 R S T U V P Q M N &
 wait
 { head -4 SWEEP_1.md; for i in 1 2 3 4 5; do tail -n +5 SWEEP_$i.md; done; } > SWEEP.md
 echo "sweep done: $(grep -c '| caught |' SWEEP.md) caught, $(grep -c 'NOT CAUGHT\|DOES NOT APPLY' SWEEP.md) not"
